@@ -277,6 +277,27 @@ def fork_crossing_family(rng, prefix):
     return out
 
 
+def numeral_family(rng, prefix):
+    """parameter votes whose candidate is a numeral that only a lenient parser reads as a number
+    (0x.., 0b.., 0o.., underscores, leading zero), cast by the holder of more than 2/3 of the stake,
+    followed by ballots of the same and of other voters in the same and in later blocks: a vote that
+    gets past validation but fails in VoteResult.Sync would be dropped by the producer after the
+    in-memory voting power rank was changed"""
+    out = []
+    for ver in (2, 3, 4):
+        for k, num in enumerate(rng.sample(G.NUMERALS, 4)):
+            cs = [G.cand(90 + i).hex() for i in range(2)]
+            out.append({"id": "%s-v%d-%d" % (prefix, ver, k), "ver": ver, "naccts": 4, "bal": str(BAL), "coinbase": 3, "public": k % 2 == 0, "blocks": [
+                {"ts": 1000, "txs": [{"from": 0, "nonce": 1, "kind": "stake", "amt": str(6 * S)}, {"from": 1, "nonce": 1, "kind": "stake", "amt": str(S)}]},
+                {"ts": 2000, "txs": [{"from": 0, "nonce": 2, "kind": "votedao", "id": rng.choice(["BPCOUNT", "GASPRICE", "NAMEPRICE"]), "val": [num]},
+                                     {"from": 0, "nonce": 2, "kind": "votebp", "cands": cs},
+                                     {"from": 1, "nonce": 2, "kind": "votebp", "cands": [cs[1]]}]},
+                {"ts": 3000, "txs": [{"from": 0, "nonce": 3, "kind": "votedao", "id": "BPCOUNT", "val": ["5"]},
+                                     {"from": 2, "nonce": 1, "kind": "stake", "amt": str(S)}]},
+                {"ts": 4000, "txs": [{"from": 2, "nonce": 2, "kind": "votebp", "cands": [cs[0]]}]}]})
+    return out
+
+
 def deadline_family(rng, prefix, ver=None, public=None):
     """the block-generation deadline (the context GatherTXs consults in checkBGTimeout) expires at
     every position of the candidate list of one block: already expired when gathering starts (-1)
